@@ -688,6 +688,7 @@ func replayFile(file, repoDir, verifDir string) int {
 	}
 	var rf struct {
 		Harness, Label, Tier string
+		Env                  []string
 	}
 	if err := json.Unmarshal(b, &rf); err != nil || rf.Harness == "" {
 		fmt.Println("not a replay file:", file)
@@ -734,6 +735,7 @@ func replayFile(file, repoDir, verifDir string) int {
 	cmd := exec.Command(bin, "-test.run", "^TestVsymReplay$", "-test.v", "-test.timeout", "300s")
 	cmd.Dir = filepath.Join(ws.RepoDir, hs.PkgDir)
 	cmd.Env = append(os.Environ(), "VSYM_REPLAY="+abs, "VSYM_HARNESS="+hs.Name, "VERIF_TIER="+tier)
+	cmd.Env = append(cmd.Env, rf.Env...) // environment of the recorded path (e.g. GOMAXPROCS)
 	out, rerr := cmd.CombinedOutput()
 	so := string(out)
 	fmt.Print(so)
